@@ -7,6 +7,7 @@
     Priorities are [i32] in Rust, [Z] here; the only place where the width matters is
     [id.priority.checked_sub(1)], which is [None] exactly at [i32::MIN] (explicit panic). *)
 From KV Require Export Bytes RustStd.
+From Coq Require Export Sorted.
 Open Scope N_scope.
 
 Definition i32_min : Z := (-2147483648)%Z.
@@ -26,7 +27,7 @@ Notation entry := (Z * A)%type.
 (** comparator of [add_sorted_list!]:    [|probe| id.cmp(&probe.0)] *)
 Definition cmp_id_probe (prio : Z) (probe : entry) : comparison := Z.compare prio (fst probe).
 (** comparator of the original [remove_sorted_list!]: [|probe| probe.0.cmp(&$id)] — ascending
-    orientation on a descending list (the defect, see [remove_sorted_list_orig]). *)
+    orientation on a descending list (the defect, see [remove_sorted_list_v0]). *)
 Definition cmp_probe_id (prio : Z) (probe : entry) : comparison := Z.compare (fst probe) prio.
 
 (** [Vec] operations with their documented panics. *)
@@ -71,7 +72,7 @@ Definition remove_sorted_list_with (cmp : Z -> entry -> comparison) (l : list en
   end.
 Definition remove_sorted_list := remove_sorted_list_with cmp_id_probe.
 (** The macro as it was before the repair (kept for the refutation witness). *)
-Definition remove_sorted_list_orig := remove_sorted_list_with cmp_probe_id.
+Definition remove_sorted_list_v0 := remove_sorted_list_with cmp_probe_id.
 
 (** ---- reference: a finite map priority -> extension, kept as an association list in
     strictly descending priority order ---- *)
@@ -102,6 +103,9 @@ Fixpoint ref_free_below (l : list entry) (p : Z) : option Z :=
       else if (p =? q)%Z then (if (p - 1 <? i32_min)%Z then None else ref_free_below r (p - 1)%Z)
       else Some p
   end.
+
+(** the invariant of every extension vector: strictly descending priorities *)
+Definition desc (l : list entry) : Prop := StronglySorted (fun a b => (fst b < fst a)%Z) l.
 
 Inductive op : Type :=
 | Add (p : Z) (no_override : bool) (a : A)
@@ -271,7 +275,7 @@ Definition run_registry_with (run : extensions -> list request -> list step_view
   | _ => bad_input
   end.
 Definition run_registry := run_registry_with (ext_run remove_sorted_list).
-Definition run_registry_orig := run_registry_with (ext_run remove_sorted_list_orig).
+Definition run_registry_v0 := run_registry_with (ext_run remove_sorted_list_v0).
 Definition run_registry_spec := run_registry_with ext_run_ref.
 
 (** [slice::binary_search_by] itself: (L orient target (L key...)); orient 0 = [|probe| target.cmp(probe)]
@@ -292,8 +296,17 @@ Definition run_bsearch (x : xval) : xval :=
   | _ => bad_input
   end.
 
+(** [get_present_fn] lists the predicate-bound Present vector (it returned the present_file map before
+    the repair): after add 7 "seven", add 3 "three" on [Extensions::empty()] and one present_file. *)
+Definition run_present_fn_getter (x : xval) : xval :=
+  match obind (add_sorted_list [] 7%Z false (B "seven")) (fun l => add_sorted_list l 3%Z false (B "three")) with
+  | Ok l => x_listing l
+  | _ => XL [XN 77]
+  end.
+
 Definition registry_table : list (bytes * (xval -> xval)) :=
   [ (B "reg.ops", run_registry);
-    (B "reg.ops_orig", run_registry_orig);
+    (B "reg.ops_v0", run_registry_v0);
     (B "reg.spec", run_registry_spec);
+    (B "reg.present_fn_getter", run_present_fn_getter);
     (B "std.bsearch", run_bsearch) ].
